@@ -1,4 +1,5 @@
 import Cx.Proofs.MetaFind2
+import Cx.Proofs.Guards
 import Cx.Properties.C02
 /-
   C02 (continued) — the strategy loops of meta modelled in Cx.Model.MetaFind2 (digit prefilter with its scan budget, Teddy / Aho-Corasick
@@ -118,5 +119,166 @@ theorem C02_metaFind2_dispatch_eq_reference {O : MetaFind2.Oracles2} {P : MetaFi
     MetaFind2.findIndicesAtWithState O P st h at_ = ref h at_ :=
   ⟨MetaFind2.findIndices_eq_ref st hl h0, MetaFind2.findIndicesAt_eq_ref st hat R hanch hl hs,
    MetaFind2.findIndicesAtWithState_eq_ref st hat R hanch hl hs⟩
+
+/-! ### the strategy GUARDS (meta/strategy.go, meta/compile.go, meta/reverse_inner.go; model Cx.Model.Guards, proofs Cx.Proofs.Guards)
+
+The AST predicates that route a pattern away from the engines that cannot express it are the hypotheses of the strategy theorems
+above and in C02.lean.  `Guards.Node x re`: `x` is a node of `re` (under ANY operator); `Guards.HasOp re ops`: some node has an
+operator in `ops`; `Guards.normalForm re` (decidable): the shape `syntax.Parse` guarantees (leaves have no operand, unary operators
+one, `{n,m}` has `0 ≤ n`, a literal has a rune) — checked by the harness on every AST of the tie; `Sem.Matches h re i j`: `re` matches
+`h[i:j)` (declarative semantics, Cx.Spec.ReSem), which every answer of the reference matcher satisfies (`C02_guard_reference_sound`).
+The models are tied to the real unexported functions by `c02GuardsTie` ("Cx.Guards.<name> == meta.<name>"). -/
+
+open Cx.Fast in
+/-- every span the executable reference search reports is a match of the declarative semantics the `_sound` theorems speak about -/
+theorem C02_guard_reference_sound {re : Re} {h : Bytes} {at_ s e : Nat} (hf : Ref.refFind re h at_ = some (s, e)) :
+    at_ ≤ s ∧ Sem.Matches h re s e := Guards.refFind_sound hf
+
+open Cx.Fast in
+/-- `hasWordBoundary` sees `\b` / `\B` under EVERY operator (capture, `* + ? {n,m}`, concatenation, alternation, at any depth) -/
+theorem C02_guard_hasWordBoundary_exact (re : Re) (hnf : Guards.normalForm re = true) :
+    Guards.hasWordBoundary re = true ↔ Guards.HasOp re [.wordBoundary, .noWordBoundary] := Guards.hasWordBoundary_exact re hnf
+
+open Cx.Fast in
+/-- `hasNonGreedyQuantifier`: `true` iff some `*`, `+`, `?`, `{n,m}` node — anywhere — carries the `NonGreedy` flag -/
+theorem C02_guard_hasNonGreedyQuantifier_exact (re : Re) (hnf : Guards.normalForm re = true) :
+    Guards.hasNonGreedyQuantifier re = true ↔
+      ∃ x, Guards.Node x re ∧ x.op ∈ [Op.star, Op.plus, Op.quest, Op.repeat_] ∧ x.nonGreedy = true :=
+  Guards.hasNonGreedyQuantifier_exact re hnf
+
+open Cx.Fast in
+/-- `hasAnchorAssertions`, for EVERY AST: `true` iff some node is one of `^ $ \A \z \b \B` (both line modes).  Hence (second part)
+    the strategies behind its negation — the reverse suffix / suffix-set / inner strategies, Aho-Corasick, the reverse DFA of the
+    bidirectional search — only see LOOK-FREE patterns. -/
+theorem C02_guard_hasAnchorAssertions_exact (re : Re) :
+    (Guards.hasAnchorAssertions re = true ↔
+      Guards.HasOp re [.beginLine, .endLine, .beginText, .endText, .wordBoundary, .noWordBoundary]) ∧
+    (Guards.hasAnchorAssertions re = false → ∀ x, Guards.Node x re →
+      x.op ∉ [Op.beginLine, Op.endLine, Op.beginText, Op.endText, Op.wordBoundary, Op.noWordBoundary]) :=
+  ⟨Guards.hasAnchorAssertions_exact re, Guards.lookFree_of_guard re⟩
+
+open Cx.Fast in
+/-- `hasMultilineLineAnchor`, for every AST: `true` iff some node is `(?m)^` or `(?m)$` -/
+theorem C02_guard_hasMultilineLineAnchor_exact (re : Re) :
+    Guards.hasMultilineLineAnchor re = true ↔ Guards.HasOp re [.beginLine, .endLine] := Guards.hasMultilineLineAnchor_exact re
+
+open Cx.Fast in
+/-- `canMatchEmpty` is SOUND: a `false` means that no match of the pattern is empty — any haystack, any position; in particular
+    the reference search never reports an empty span -/
+theorem C02_guard_canMatchEmpty_sound (re : Re) (hnf : Guards.normalForm re = true) (hc : Guards.canMatchEmpty re = false) (h : Bytes) :
+    (∀ i j, Sem.Matches h re i j → i < j) ∧ (∀ at_ s e, Ref.refFind re h at_ = some (s, e) → s < e) :=
+  ⟨Guards.canMatchEmpty_sound h re hnf hc, fun _ _ _ hf => Guards.canMatchEmpty_sound_ref hnf hc hf⟩
+
+open Cx.Fast in
+/-- `canMatchNewline` is SOUND, for EVERY AST: a `false` means that no match contains the byte 0x0A (`lineBounded`, the `lb_nl` /
+    `no_nl` hypotheses of the reverse strategies) -/
+theorem C02_guard_canMatchNewline_sound (re : Re) (hc : Guards.canMatchNewline re = false) (h : Bytes) :
+    (∀ i j, Sem.Matches h re i j → ∀ p, i ≤ p → p < j → h.at p ≠ 10) ∧
+    (∀ at_ s e, Ref.refFind re h at_ = some (s, e) → ∀ p, s ≤ p → p < e → h.at p ≠ 10) :=
+  ⟨Guards.canMatchNewline_sound h re hc, fun _ _ _ hf => Guards.canMatchNewline_sound_ref hc hf⟩
+
+open Cx.Fast in
+/-- `isSafeForReverseSuffix`, for every AST: exactly the patterns that — capture groups around the whole pattern peeled off — are a
+    concatenation of at least two elements with a "wildcard" element (`.*`, `.+`, `[class]+`, `x{n,m}` with `n ≥ 1`, possibly in capture
+    groups) before the last one and no `^ $ \A \z` in the elements strictly between the first and the last.  (Anchors in the first
+    and last element are NOT excluded by it: `Guards.isSafeForReverseSuffix_accepts_anchors`; `hasAnchorAssertions` is what excludes them.) -/
+theorem C02_guard_isSafeForReverseSuffix_exact (re : Re) :
+    Guards.isSafeForReverseSuffix re = true ↔
+      (Guards.unwrapCapture re).op = .concat ∧ 2 ≤ (Guards.unwrapCapture re).sub.length ∧
+      (∃ w ∈ (Guards.unwrapCapture re).sub.dropLast, Guards.isWildcardSubexpression w = true) ∧
+      ∀ x ∈ (Guards.unwrapCapture re).sub.dropLast.drop 1, Guards.containsAnchor x = false :=
+  Guards.isSafeForReverseSuffix_exact re
+
+open Cx.Fast in
+/-- `isSafeForReverseInner`, for every AST: exactly the patterns that — capture groups around the whole pattern peeled off — are a
+    concatenation of at least two elements that begins with `.*`, `.+` or `[class]+` (not inside a group) -/
+theorem C02_guard_isSafeForReverseInner_exact (re : Re) :
+    Guards.isSafeForReverseInner re = true ↔
+      (Guards.unwrapCapture re).op = .concat ∧
+      ∃ first second rest, (Guards.unwrapCapture re).sub = first :: second :: rest ∧ Guards.leadWildcard first = true :=
+  Guards.isSafeForReverseInner_exact re
+
+open Cx.Fast in
+/-- `isSafeForMultilineReverseSuffix` is SOUND, for every AST: a `true` means that every match starts at the start of a line and
+    contains no '\n' (`line_start`, `no_nl` of `Cx.MultilineRevSuffix.Core`) -/
+theorem C02_guard_isSafeForMultilineReverseSuffix_sound (re : Re) (hs : Guards.isSafeForMultilineReverseSuffix re = true) (h : Bytes) :
+    ∀ i j, Sem.Matches h re i j → (i = 0 ∨ h.at (i - 1) = 10) ∧ ∀ p, i ≤ p → p < j → h.at p ≠ 10 :=
+  Guards.isSafeForMultilineReverseSuffix_sound h re hs
+
+open Cx.Fast in
+/-- `isSimpleCharClass`: `true` iff EVERY node is a class, `* + ? {n,m}`, a concatenation or a capture group -/
+theorem C02_guard_isSimpleCharClass_exact (re : Re) (hnf : Guards.normalForm re = true) :
+    Guards.isSimpleCharClass re = true ↔
+      ∀ x, Guards.Node x re → x.op ∈ [Op.charClass, Op.plus, Op.star, Op.quest, Op.repeat_, Op.concat, Op.capture] :=
+  Guards.isSimpleCharClass_exact re hnf
+
+open Cx.Fast in
+/-- `isDigitLeadPattern` is SOUND, for every AST: a `true` means that every match is non-empty and starts with an ASCII digit
+    (the `DigitOK` contract "every match starts with a digit" of `C02_digitPrefilter_find_eq_reference`) -/
+theorem C02_guard_isDigitLeadPattern_sound (re : Re) (hd : Guards.isDigitLeadPattern re = true) (h : Bytes) :
+    (∀ i j, Sem.Matches h re i j → i < j ∧ i < h.size ∧ 48 ≤ h.at i ∧ h.at i ≤ 57) ∧
+    (∀ at_ s e, Ref.refFind re h at_ = some (s, e) → s < e ∧ s < h.size ∧ 48 ≤ h.at s ∧ h.at s ≤ 57) :=
+  ⟨Guards.isDigitLeadPattern_sound h re hd, fun _ _ _ hf => Guards.isDigitLeadPattern_sound_ref hd hf⟩
+
+open Cx.Fast in
+/-- `isDigitRunSkipSafe` keeps its promise ("on failure within a digit run, all other starting positions in the same run will also
+    fail"), for every AST, at the level of the language: if `h[s:s')` are ASCII digits, a match from `s'` extends to a match from `s`
+    with the same end; so no match from `s` ⇒ no match from any later start of the run -/
+theorem C02_guard_isDigitRunSkipSafe_sound (re : Re) (hd : Guards.isDigitRunSkipSafe re = true) (h : Bytes) (s s' : Nat) (hss : s ≤ s')
+    (hrun : ∀ p, s ≤ p → p < s' → p < h.size ∧ 48 ≤ h.at p ∧ h.at p ≤ 57) :
+    (∀ e, Sem.Matches h re s' e → Sem.Matches h re s e) ∧ ((∀ e, ¬ Sem.Matches h re s e) → ∀ e, ¬ Sem.Matches h re s' e) :=
+  ⟨fun e hm => Guards.isDigitRunSkipSafe_sound h re hd s s' e hss hrun hm,
+   fun hno e hm => hno e (Guards.isDigitRunSkipSafe_sound h re hd s s' e hss hrun hm)⟩
+
+open Cx.Fast in
+/-- `hasWordBoundaryAnchorCombo` IS `hasWordBoundary` (every AST): `hasAnchorAssertions` counts `\b` / `\B` as anchors, so "word
+    boundary combined with an anchor" holds of every pattern with a word boundary -/
+theorem C02_guard_hasWordBoundaryAnchorCombo_exact (re : Re) :
+    Guards.hasWordBoundaryAnchorCombo re = Guards.hasWordBoundary re ∧
+    (Guards.normalForm re = true → (Guards.hasWordBoundaryAnchorCombo re = true ↔ Guards.HasOp re [.wordBoundary, .noWordBoundary])) :=
+  ⟨Guards.hasWordBoundaryAnchorCombo_eq re, Guards.hasWordBoundaryAnchorCombo_exact re⟩
+
+open Cx.Fast in
+/-- `hasCaseInsensitiveUnicode`, for every AST: `true` iff some node has the `FoldCase` flag and lists a rune above U+007F -/
+theorem C02_guard_hasCaseInsensitiveUnicode_exact (re : Re) :
+    Guards.hasCaseInsensitiveUnicode re = true ↔ ∃ x, Guards.Node x re ∧ x.foldCase = true ∧ ∃ r ∈ x.rune, r > 127 :=
+  Guards.hasCaseInsensitiveUnicode_exact re
+
+open Cx.Fast in
+/-- `hasNonLineAnchors`: `true` iff some node is an assertion other than `(?m)^` -/
+theorem C02_guard_hasNonLineAnchors_exact (re : Re) (hnf : Guards.normalForm re = true) :
+    Guards.hasNonLineAnchors re = true ↔ Guards.HasOp re [.endLine, .endText, .beginText, .wordBoundary, .noWordBoundary] :=
+  Guards.hasNonLineAnchors_exact re hnf
+
+open Cx.Fast in
+/-- `lineAnchorLeadsEveryBranch` is SOUND, for every AST: a `true` means that every match begins at a line start; and the test that
+    admits a pattern to the literal engines (`UseTeddy`, the line-anchor wrapper of `adjustForAnchors`) means: no assertion at all, or
+    only `(?m)^` assertions and every match at a line start -/
+theorem C02_guard_lineAnchorLeadsEveryBranch_sound (re : Re) :
+    (Guards.lineAnchorLeadsEveryBranch re = true → ∀ h i j, Sem.Matches h re i j → i = 0 ∨ h.at (i - 1) = 10) ∧
+    (Guards.normalForm re = true →
+      (Guards.hasAnchorAssertions re && (Guards.hasNonLineAnchors re || !Guards.lineAnchorLeadsEveryBranch re)) = false →
+      (∀ x, Guards.Node x re → x.op ∉ Guards.lookOps) ∨
+      ((∀ x, Guards.Node x re → x.op ∈ Guards.lookOps → x.op = .beginLine) ∧
+        ∀ h i j, Sem.Matches h re i j → i = 0 ∨ h.at (i - 1) = 10)) :=
+  ⟨fun hs h => Guards.lineAnchorLeadsEveryBranch_sound h re hs, Guards.literalEngine_guard re⟩
+
+open Cx.Fast in
+/-- `isStartAnchorOnly`, what holds: every match of such a pattern is empty and the pattern matches at position 0.  Its documented
+    promise "empty at position 0 ONLY" does NOT hold (`C02_guard_isStartAnchorOnly_cex`); hence `_partial`. -/
+theorem C02_guard_isStartAnchorOnly_sound_partial (re : Re) (hs : Guards.isStartAnchorOnly re = true) (h : Bytes) :
+    (∀ i j, Sem.Matches h re i j → i = j) ∧ Sem.Matches h re 0 0 :=
+  ⟨Guards.isStartAnchorOnly_zeroWidth h re hs, Guards.isStartAnchorOnly_matches_at_zero h re hs⟩
+
+open Cx.Fast in
+/-- counterexample to "a start-anchor-only pattern matches at position 0 only": `(?m)^` on "a\nb" at 2, the empty regexp and `(?:\A)*` at 1
+    (the real `isStartAnchorOnly` answers `true` for all three: harness tie; unreachable at HEAD, see Cx.Proofs.Guards §5) -/
+theorem C02_guard_isStartAnchorOnly_cex :
+    Guards.isStartAnchorOnly (Re.leaf .beginLine) = true ∧ Ref.matchAt (Re.leaf .beginLine) #[97, 10, 98] 2 = some 2 ∧
+    Guards.isStartAnchorOnly (Re.leaf .emptyMatch) = true ∧ Ref.matchAt (Re.leaf .emptyMatch) #[97, 10, 98] 1 = some 1 ∧
+    Guards.isStartAnchorOnly (Re.starOf (Re.leaf .beginText)) = true ∧
+      Ref.matchAt (Re.starOf (Re.leaf .beginText)) #[97, 10, 98] 1 = some 1 :=
+  Guards.isStartAnchorOnly_not_only_at_zero
+
 
 end Cx.C02
